@@ -313,7 +313,15 @@ def install_objects(E):
     E.builtins[('import', 'concurrent.futures:ThreadPoolExecutor')] = VClass(
         'ThreadPoolExecutor', ctor=lambda E_, a, k: Obj('Executor', dict(workers=a[0] if a else NONE)))
     E.builtins[('import', 'itertools:islice')] = VStub('itertools.islice', lambda E_, a, k: Obj('islice', dict(it=a[0], n=a[1])))
-    E.builtins[('import', 'sys')] = VNamespace('sys', dict(version_info=VTuple([VInt(3), VInt(12), VInt(1)])))
+    def _exc_info(E_, a, k):
+        """sys.exc_info(): the exception being handled in THIS THREAD right now -- inside a generator that includes an
+        exception the consumer happens to be handling while it drives the generator (an `except` block, a `finally`
+        during unwinding): unknown to the callee"""
+        none = E_.fresh('no_exception_is_being_handled_anywhere_up_the_stack', z3.BoolSort())
+        return VTuple([VOpt(none, E_.fresh_val('exc_type')), VOpt(none, E_.fresh_val('exc_value')),
+                       VOpt(none, E_.fresh_val('exc_traceback'))])
+    E.builtins[('import', 'sys')] = VNamespace('sys', dict(version_info=VTuple([VInt(3), VInt(12), VInt(1)]),
+                                                           exc_info=VStub('sys.exc_info', _exc_info)))
     E.builtins[('import', 'queue')] = VNamespace('queue', dict(Queue=VClass('queue.Queue', ctor=lambda E_, a, k: Obj('TQueue', dict(maxsize=k.get('maxsize', a[0] if a else VInt(0)))))))
 
 
